@@ -120,7 +120,7 @@ Record script_case := {
 
 Definition corr_side (sd : side_case) (rx tx : string) : bool :=
   if sd_raw sd then true else
-  let (ok, s) := replay (init_mux (unhex rx) (sd_qlen sd) (sd_opened sd)) (sd_events sd) in
+  let (ok, s) := replay (init_mux_cfg (unhex rx) (sd_qlen sd) (sd_opened sd)) (sd_events sd) in
   ok && bytes_eqb (m_tx s) (unhex tx).
 
 Definition corr_script (c : script_case) : bool :=
@@ -162,7 +162,7 @@ Definition corr_readbuf (c : readbuf_case) : bool :=
   let ws := map (fun h => (rb_id c, unhex h)) (rb_frames c) in
   let evs := map (fun _ => (EvReader, ONone)) (rb_frames c) ++
              map (fun r => (EvReadB (rb_id c) true (fst (fst r)) (snd (fst r)), snd r)) (rb_reads c) in
-  fst (replay (init_mux (trunk ws) (rb_qlen c) [rb_id c]) evs).
+  fst (replay (init_mux_cfg (trunk ws) (rb_qlen c) [rb_id c]) evs).
 
 (* the property on the observation: the k-th Read took the k-th frame; it returned no more than the
    buffer's LENGTH holds and then the whole frame, or ENOMEM and then the frame did not fit *)
